@@ -491,7 +491,8 @@ fn record_stats(st: &mut Stats, prog: &Prog, kind: Kind, plan: &Plan, strat: Str
     if ev.obs.cancel_with_live_tasks {
         Stats::bump(p, "cancel_with_live_tasks", 1);
     }
-    if ev.obs.threads.iter().any(|t| t.name.as_deref().map(|n| n.matches("_join_").count() >= 2).unwrap_or(false)) {
+    let caller_depth = ev.obs.threads.first().and_then(|t| t.name.as_deref()).map(|n| n.matches("join_").count()).unwrap_or(0);
+    if ev.obs.threads.iter().any(|t| t.name.as_deref().map(|n| n.matches("join_").count() >= caller_depth + 2).unwrap_or(false)) {
         Stats::bump(p, "nested_thread_depth_ge2", 1);
     }
     if ev.refnp.events.iter().any(|e| e.tag.len() >= 2) {
